@@ -2,7 +2,7 @@
 # tools/runall.sh [tier] [seed]: run every registered check on the current tree; summary on stdout
 tier=${1:-quick}; seed=${2:-1}
 for i in $(seq -w 1 20); do
-  out=$(VERIF_SEED=$seed python3 /verif/check.py C$i --tier $tier 2>&1)
+  out=$(VERIF_SEED=$seed python3 "$(dirname "$0")/../check.py" C$i --tier $tier 2>&1)
   rc=$?
   echo "C$i exit=$rc $(echo "$out" | grep -E '^\[check\] C[0-9]+ tier' | cut -c1-160)"
   echo "$out" | grep -E "^VIOLATION|^INCONCLUSIVE" | cut -c1-200
